@@ -74,7 +74,7 @@ def scheduler_inputs(rng, n):
     gemm = (rng.choice([(2, 2, 2), (4, 2, 2), (2, 4, 2)]), gmats)
     gemm_unb = ((None, 2, 2), gmats)
     for _ in range(n):
-        fam = rng.choice(["ew1", "ew2", "matmul", "matmul", "conv", "bcast", "random"])
+        fam = rng.choice(["ew1", "ew2", "matmul", "matmul", "bmatmul", "conv", "bcast", "random"])
         if fam == "ew1":
             k = rng.choice([2, 3])
             n0 = rng.choice([4, 8, 12, 16, 6, 3, 64, 2, 1])
@@ -95,6 +95,15 @@ def scheduler_inputs(rng, n):
                 M, N, K = (rng.choice([2, 4, 6, 3]) for _ in range(3))
             rec = {"bounds": [M, N, K], "pats": [{"A": [[1, 0, 0], [0, 0, 1]], "b": [0, 0]}, {"A": [[0, 0, 1], [0, 1, 0]], "b": [0, 0]},
                                                  {"A": [[1, 0, 0], [0, 1, 0]], "b": [0, 0]}]}
+            t = gemm if rng.random() < 0.7 else gemm_unb
+            sizes = [1, 1, 4]
+        elif fam == "bmatmul":
+            # batched: operands of higher rank than the template's (b, m, k) x (k, n) -> (b, m, n), or all three batched
+            Bb, M, N, K = rng.choice([2, 3]), rng.choice([2, 4]), rng.choice([2, 4]), rng.choice([2, 4])
+            bw = rng.random() < 0.4
+            rec = {"bounds": [Bb, M, N, K], "pats": [{"A": [[1, 0, 0, 0], [0, 1, 0, 0], [0, 0, 0, 1]], "b": [0, 0, 0]},
+                                                     ({"A": [[1, 0, 0, 0], [0, 0, 0, 1], [0, 0, 1, 0]], "b": [0, 0, 0]} if bw else {"A": [[0, 0, 0, 1], [0, 0, 1, 0]], "b": [0, 0]}),
+                                                     {"A": [[1, 0, 0, 0], [0, 1, 0, 0], [0, 0, 1, 0]], "b": [0, 0, 0]}]}
             t = gemm if rng.random() < 0.7 else gemm_unb
             sizes = [1, 1, 4]
         elif fam == "conv":
@@ -369,7 +378,7 @@ def run(pid: str, tier: str, seed: int, selftest=False, replay=None) -> int:
         for _ in range(1500 if quick else 30000):
             tnd = rng.choice([1, 2, 3])
             snd = rng.choice([tnd, tnd, tnd + 1, max(1, tnd - 1)])
-            trows, srows = rng.choice([1, 2, 3]), rng.choice([1, 2])
+            trows, srows = rng.choice([1, 2, 3]), rng.choice([1, 2, 2, 3, 4])      # also operands of higher rank than the template operand
             tA = [[rng.randint(-2, 3) if rng.random() < 0.7 else 0 for _ in range(tnd)] for _ in range(trows)]
             if rng.random() < 0.5 and snd >= tnd and srows <= trows:
                 # derive the schedule rows from the template rows (same subspace) by an invertible integer combination
